@@ -273,6 +273,7 @@ impl<WW: WordWrite> BufBitWriter<BE, WW> {
     #[verifier::external_body]
     fn write_bits(&mut self, value: u64, n_bits: usize) -> (r: Result<usize, WW::Error>)
         requires old(self).inv(), n_bits <= 64,
+            CHECKS_PRE(value, n_bits)
         ensures r is Ok ==> final(self).inv() && final(self).view() == old(self).view() + field(false, value, n_bits as nat),
     { unimplemented!() }
 
@@ -330,6 +331,7 @@ impl<WW: WordWrite> BufBitWriter<LE, WW> {
     #[verifier::external_body]
     fn write_bits(&mut self, value: u64, n_bits: usize) -> (r: Result<usize, WW::Error>)
         requires old(self).inv(), n_bits <= 64,
+            CHECKS_PRE(value, n_bits)
         ensures r is Ok ==> final(self).inv() && final(self).view() == old(self).view() + field(true, value, n_bits as nat),
     { unimplemented!() }
 
